@@ -302,6 +302,37 @@ func checkLowerMap(c *Ctx, fn *ssa.Function) {
 	// firstMatch: k is the index at which a unit-stride search over the name first met a byte for which the loop was left;
 	// the loop goes on only for bytes that are not upper-case letters. Then x[:k] holds no upper-case letter.
 	firstMatch := func(k ssa.Value) (bool, string) {
+		// bytes.IndexFunc(name, pred): before the index it returns pred is false; enough if pred holds for every
+		// upper-case letter (an ASCII letter is always a rune of its own)
+		if cl, ok := k.(*ssa.Call); ok {
+			f := cl.Call.StaticCallee()
+			if f == nil || f.String() != "bytes.IndexFunc" || len(cl.Call.Args) != 2 || cl.Call.Args[0] != nameParam {
+				return false, "the length of the head copied verbatim is not the result of a search over the name"
+			}
+			var pred *ssa.Function
+			switch y := cl.Call.Args[1].(type) {
+			case *ssa.Function:
+				pred = y
+			case *ssa.MakeClosure:
+				if len(y.Bindings) == 0 {
+					pred, _ = y.Fn.(*ssa.Function)
+				}
+			}
+			if pred == nil || pred.Blocks == nil {
+				return false, "the predicate handed to IndexFunc is not a function of the module"
+			}
+			t := bs.Table(pred)
+			if t.why != "" {
+				return false, "the predicate handed to IndexFunc is not analysable: " + t.why
+			}
+			for d := int64('A'); d <= 'Z'; d++ {
+				o, ok := t.lookup(d)
+				if !ok || o.kind != oRet || o.val == 0 {
+					return false, fmt.Sprintf("the search does not stop at the upper-case letter %q: the head copied verbatim may contain it", rune(d))
+				}
+			}
+			return true, ""
+		}
 		ph, ok := k.(*ssa.Phi)
 		if !ok {
 			return false, "the length of the head copied verbatim is not the result of a search loop"
